@@ -17,13 +17,16 @@ open VaxisModel.Model.Key VaxisModel.Model.TermKey
 open VaxisModel.Spec.KeyEnc VaxisModel.Spec.TermInput VaxisModel.Gen.Keys VaxisModel.Gen.TermKeys
 open VaxisModel.Lemmas.TermInput VaxisModel.Props.C13
 
-/-- The regenerated application-mode table is xterm's (`SS3 p…y`, `n o j m k`, `M`, `X`, `l`), row by row. -/
+/-- The regenerated application-mode table is xterm's (`SS3 p…y`, `n o j m k`, `M`, `X`, `l`): every row of the
+    source is a row of the spec and every row of the spec is found by the look-up (order of the rows irrelevant). -/
 theorem keypad_application_table_is_xterm :
-    keypadApplicationMode = keypadChars.map fun e => (e.1, [27, 79, e.2.2.toNat]) := by decide
+    (∀ r ∈ keypadApplicationMode, r ∈ keypadChars.map fun e => (e.1, [27, 79, e.2.2.toNat])) ∧
+    (∀ e ∈ keypadChars, lookup e.1 keypadApplicationMode = some [27, 79, e.2.2.toNat]) := by decide
 
-/-- The regenerated numeric-mode table maps each keypad key to the key its legend names. -/
+/-- The regenerated numeric-mode table maps each keypad key to the key its legend names, and nothing else. -/
 theorem keypad_numeric_table_is_legend :
-    keypadNumericMode = (keypadChars.map fun e => (e.1, e.2.1)) ++ keypadNav := by decide
+    (∀ r ∈ keypadNumericMode, r ∈ (keypadChars.map fun e => (e.1, e.2.1)) ++ keypadNav) ∧
+    (∀ e ∈ (keypadChars.map fun e => (e.1, e.2.1)) ++ keypadNav, lookup e.1 keypadNumericMode = some e.2) := by decide
 
 /-- Row facts used below (kernel-evaluated over the regenerated tables). -/
 theorem keypad_char_rows : ∀ e ∈ keypadChars,
